@@ -310,7 +310,7 @@ def crash_labels(hist):
     return out
 
 
-def classify(hist, trace, pos, inv):
+def classify(hist, trace, pos, inv, diag=None):
     """signature of a rejected history: what was rejected and where the process had been killed"""
     cfg = hist.cfg
     ev = trace[pos] if pos is not None and pos < len(trace) else None
@@ -335,9 +335,14 @@ def classify(hist, trace, pos, inv):
         else:
             kind = "reject:open-w-" + ev["f"]
     elif ev["e"] == "call":
-        starts = [i for i, q in enumerate(trace[:pos]) if q["e"] == "start"]
-        earlier = any(q["e"] == "call" and q["s"] == ev["s"] for q in trace[:starts[-1]]) if starts else False
-        kind = "recomputes-checkpointed-sample" if earlier else "call-beyond-budget"
+        # TLC's diagnostics register: what the specification's process held when the call could not be matched
+        if diag and ev["s"] in diag.get("held", []):
+            kind = "recomputes-checkpointed-sample"
+        elif diag and len(diag.get("held", [])) >= diag.get("budget", 0):
+            # the life already holds `budget` samples; did it start from a recovered, non-empty state?
+            kind = "budget-exceeded-after-recovery" if diag.get("rec") else "call-beyond-budget"
+        else:
+            kind = "reject:call"
     elif ev["e"] == "end":
         if ev["threw"]:
             kind = "restart-throws"
@@ -403,7 +408,18 @@ def validate_chunk(args):
             acc += len(tr)
         h, tr = todo[bad]
         local = pos - acc - 1
-        rej.append({"hist": h, "trace": tr, "pos": local if local < len(tr) else None, "inv": inv,
+        diag = {}
+        dm = re.search(r'"REJECTED_AT", \d+, \[([^\]]*)\]', re.sub(r"\s+", " ", r.out))
+        if dm and not inv:
+            rec = dm.group(1)
+            hm = re.search(r"held \|-> \{([^}]*)\}", rec)
+            bm = re.search(r"budget \|-> (\d+)", rec)
+            pm = re.search(r'pc \|-> "(\w+)"', rec)
+            rm = re.search(r"rec \|-> \{([^}]*)\}", rec)
+            diag = {"held": [int(x) for x in hm.group(1).replace(" ", "").split(",") if x] if hm else [],
+                    "rec": [int(x) for x in rm.group(1).replace(" ", "").split(",") if x] if rm else [],
+                    "budget": int(bm.group(1)) if bm else 0, "pc": pm.group(1) if pm else ""}
+        rej.append({"hist": h, "trace": tr, "pos": local if local < len(tr) else None, "inv": inv, "diag": diag,
                     "tlc": r.error_trace[-2500:] if inv else ""})
         n_ok += bad
         todo = todo[bad + 1:]
@@ -558,7 +574,7 @@ def plan_and_run(ctx, tools, wd, cfg, gen_hs, rnd, budget_hist):
 
 def report_rejection(ctx, rj, reported):
     h, tr, pos = rj["hist"], rj["trace"], rj["pos"]
-    sig = classify(h, tr, pos, rj["inv"])
+    sig = classify(h, tr, pos, rj["inv"], rj.get("diag"))
     ev = tr[pos] if pos is not None and pos < len(tr) else None
     what = ("invariant %s violated by a recorded history" % rj["inv"]) if rj["inv"] else \
            ("first event that is not a step of Checkpoint.tla: %s" % json.dumps(ev))
@@ -718,7 +734,10 @@ def run(ctx):
     # ---- 3. the real code
     lim = {"singles": 70 if quick else 100000, "second_per_first": 3 if quick else 1000}
     hists = []
+    only = os.environ.get("VERIF_C17_ONLY", "")      # debugging aid: restrict the configurations by name
     for cfg in configs(ctx):
+        if only and only not in cfg_name(cfg):
+            continue
         hists += plan_and_run(ctx, tools, wd, cfg, allgen, rnd, lim)
     # identical (cfg, kill list) only once
     uniq = {}
@@ -734,15 +753,30 @@ def run(ctx):
     ctx.traces = n_ok
     ctx.extra["histories_unexamined_after_repeated_rejections"] = left
     reported = set()
-    # uninterrupted runs first: they explain most of the rest
+    # uninterrupted runs first (they explain most of the rest), then one history of every kind of rejection
     rejs.sort(key=lambda rj: (len(rj["hist"].crashes), cfg_name(rj["hist"].cfg)))
-    for rj in rejs:
-        report_rejection(ctx, rj, reported)
+    sigs = [classify(rj["hist"], rj["trace"], rj["pos"], rj["inv"], rj.get("diag")) for rj in rejs]
+    kinds = {}
+    for sg in sigs:
+        kinds[sg.split(":")[0] if not sg.startswith("two-crash") else ":".join(sg.split(":")[:2])] = \
+            kinds.get(sg.split(":")[0] if not sg.startswith("two-crash") else ":".join(sg.split(":")[:2]), 0) + 1
+    ctx.extra["rejections_by_kind"] = kinds
+    seen_kind = set()
+    order = []
+    for i, sg in enumerate(sigs):
+        k = sg.split(":")[0] if not sg.startswith("two-crash") else ":".join(sg.split(":")[:2])
+        if k not in seen_kind:
+            seen_kind.add(k)
+            order.append(i)
+    order += [i for i in range(len(rejs)) if i not in set(order)]
+    for i in order:
+        report_rejection(ctx, rejs[i], reported)
     ctx.extra["histories_rejected"] = len(rejs)
 
     # ---- 4. binding demonstration on the first uninterrupted sequential run
-    h0 = [h for h in hists if not h.crashes and h.cfg["mode"] == "seq"][0]
-    ctx.extra["binding_demo"] = binding_demo(ctx, wd, h0)
+    h0 = [h for h in hists if not h.crashes and h.cfg["mode"] == "seq"]
+    if h0:
+        ctx.extra["binding_demo"] = binding_demo(ctx, wd, h0[0])
 
     single = [h for h in hists if len(h.crashes) == 1]
     if single:
@@ -772,7 +806,7 @@ def replay(ctx, path):
         if r.get("e") != "fs" or r.get("op") != "read":
             print(json.dumps(r)[:220])
     if rejs:
-        print("REJECTED by TLC: %s" % classify(h, rejs[0]["trace"], rejs[0]["pos"], rejs[0]["inv"]))
+        print("REJECTED by TLC: %s" % classify(h, rejs[0]["trace"], rejs[0]["pos"], rejs[0]["inv"], rejs[0].get("diag")))
         return 1
     print("ACCEPTED by TLC (history is a behaviour of Checkpoint.tla, all invariants hold)")
     return 0
